@@ -10,6 +10,7 @@ pub mod c11;
 pub mod c13;
 pub mod c14;
 pub mod c15;
+pub mod c17;
 pub mod c18;
 pub mod common;
 
@@ -26,6 +27,7 @@ pub fn run(id: &str, tier: Tier, seed: u64) -> i32 {
         "C13" => c13::run(tier, seed),
         "C14" => c14::run(tier, seed),
         "C15" => c15::run(tier, seed),
+        "C17" => c17::run(tier, seed),
         "C18" => c18::run(tier, seed),
         _ => {
             eprintln!("no check for {}", id);
@@ -47,6 +49,7 @@ pub fn replay(id: &str, case: &serde_json::Value) -> CaseResult {
         "C13" => c13::replay(case),
         "C14" => c14::replay(case),
         "C15" => c15::replay(case),
+        "C17" => c17::replay(case),
         "C18" => c18::replay(case),
         _ => panic!("no check for {}", id),
     }
